@@ -176,6 +176,16 @@ impl Clause {
         // solvable would be false (and we just asserted that it is not)
         let conflict = decision_tracker.assigned_value(forbidden_solvable) == Some(true);
 
+        // A solvable that constrains away itself can never be installed. This is a unit
+        // clause (an assertion), there is nothing to watch.
+        if parent == forbidden_solvable {
+            return (
+                Clause::Constrains(parent, forbidden_solvable, via),
+                None,
+                conflict,
+            );
+        }
+
         (
             Clause::Constrains(parent, forbidden_solvable, via),
             Some([parent.negative(), forbidden_solvable.negative()]),
